@@ -13,6 +13,10 @@
 (*   evattr      solve.rs  parse_events  (terminal / direction attributes) *)
 (*   evlist      solve.rs  parse_events  loop over SEVERAL event functions *)
 (*   jac         solve.rs / ivp_wrapper.rs  constant | callable | FD       *)
+(*   solseg      cont.rs find_segment_extrapolate (OdeSolution.__call__):  *)
+(*               which accepted step answers sol(t), step ends included    *)
+(*   jacret      ivp_wrapper.rs parse_matrix: container of the matrix a     *)
+(*               callable jac returns, written into the REUSED buffer      *)
 (*   jacsrc      solve.rs + ivp_wrapper.rs PythonIVP::jac / jac_fd: which     *)
 (*               Jacobian source is used when jac and jac_sparsity combine  *)
 (*   jacread     ivp_wrapper.rs parse_matrix: strided element reads         *)
@@ -185,6 +189,28 @@ EvListContract(evs, o) ==
 JacContract(form, o) ==
   /\ (form = "none" => o.source = "fd")
   /\ (form \in JacMatrixForms \cup {"callable"} => o.source = "user")
+
+\* sol(t): k accepted steps in integration order, step i covering [X(i), X(i) + H] (ticks; H = 2 * dir).  Inside the covered
+\* span the Python sol(t) must use the step the Rust Solution::sol (cont.rs find_segment) uses: the EARLIEST accepted step
+\* whose closed interval holds t -- at an interior step end t_i that is the step ENDING there (theta = 1), not the one starting
+\* there.  Outside the span the Rust API answers Err and C20 only demands that some step answers (no exception).
+SegX(dir, i) == dir * 2 * (i - 1)
+SegH(dir) == dir * 2
+MinI(a, b) == IF a <= b THEN a ELSE b
+MaxI(a, b) == IF a >= b THEN a ELSE b
+SegHolds(dir, i, t) == t >= MinI(SegX(dir, i), SegX(dir, i) + SegH(dir)) /\ t <= MaxI(SegX(dir, i), SegX(dir, i) + SegH(dir))
+SolSegContract(i, o) ==
+  LET t == i.dir * i.s
+      inside == i.s >= 0 /\ i.s <= 2 * i.k
+  IN /\ o.seg \in 1..i.k
+     /\ inside => (SegHolds(i.dir, o.seg, t) /\ \A j \in 1..(o.seg - 1) : ~SegHolds(i.dir, j, t))
+
+\* the matrix a callable jac returns, whatever its container (dense ndarray, or a sparse container that stores only some
+\* entries): after parse_matrix the solver's Jacobian buffer holds the logical matrix -- the stored value where one is stored
+\* and ZERO everywhere else; nothing of the buffer's previous content (the matrix of the previous call: Radau and BDF reuse
+\* one buffer) survives
+JacReturnContract(i, o) ==
+  \A r \in 1..i.n : \A c \in 1..i.n : o.J[r][c] = (IF <<r, c>> \in i.nz THEN Src(r - 1, c - 1) ELSE <<"zero">>)
 
 \* which Jacobian the solver gets when `jac` and `jac_sparsity` combine (SciPy: jac_sparsity matters only for the finite-
 \* difference approximation, it is ignored when jac is given):  jac if given (a callable IS called at every Jacobian
@@ -383,6 +409,46 @@ ParseJac ==
              njev |-> IF inp \in JacMatrixForms THEN "zero" ELSE "solver"]   \* is_constant_jac => njev = 0
   /\ pc' = "done" /\ UNCHANGED <<mach, inp, st>>
 
+\* ---- cont.rs find_segment_extrapolate (tolerance 1e-12 is far below the tick resolution and not modelled) ----
+SGStart ==
+  /\ mach = "solseg" /\ pc = "alloc"
+  /\ st' = [i |-> 1] /\ pc' = "loop" /\ UNCHANGED <<mach, inp, out>>
+
+SGScan ==      \* `for seg in &self.segs { if t >= left - tol && t <= right + tol { return Some(seg) } }`: first match in integration order
+  /\ mach = "solseg" /\ pc = "loop" /\ st.i <= inp.k
+  /\ IF SegHolds(inp.dir, st.i, inp.dir * inp.s)
+     THEN out' = [seg |-> st.i, how |-> "interpolate"] /\ pc' = "done" /\ UNCHANGED st
+     ELSE st' = [st EXCEPT !.i = st.i + 1] /\ UNCHANGED <<pc, out>>
+  /\ UNCHANGED <<mach, inp>>
+
+SGExtrapolate ==   \* no step holds t: `if t < first_left { first } else if t > last_right { last } else { None }`
+                   \* (first_left = min end of the FIRST step, last_right = max end of the LAST step -- as coded, for both directions)
+  /\ mach = "solseg" /\ pc = "loop" /\ st.i = inp.k + 1
+  /\ LET t == inp.dir * inp.s
+         first_left == MinI(SegX(inp.dir, 1), SegX(inp.dir, 1) + SegH(inp.dir))
+         last_right == MaxI(SegX(inp.dir, inp.k), SegX(inp.dir, inp.k) + SegH(inp.dir))
+     IN out' = IF t < first_left THEN [seg |-> 1, how |-> "extrapolate"]
+               ELSE IF t > last_right THEN [seg |-> inp.k, how |-> "extrapolate"]
+               ELSE [seg |-> 0, how |-> "none"]
+  /\ pc' = "done" /\ UNCHANGED <<mach, inp, st>>
+
+\* ---- parse_matrix on the value a callable jac returned; `j` is the solver's buffer, still holding the previous call's matrix ----
+Stale == <<"stale">>
+JRStart ==
+  /\ mach = "jacret" /\ pc = "alloc"
+  /\ st' = [J |-> [r \in 1..inp.n |-> [c \in 1..inp.n |-> Stale]], arr |-> Nothing]
+  /\ pc' = (IF inp.form = "dense" THEN "loop" ELSE "eval") /\ UNCHANGED <<mach, inp, out>>
+
+JRToArray ==   \* not an ndarray: `result.getattr("toarray")` .call0() -- densify (zero where nothing is stored), then parse recursively
+  /\ mach = "jacret" /\ pc = "eval"
+  /\ pc' = "loop" /\ UNCHANGED <<mach, inp, st, out>>
+
+JRCopy ==      \* `for row in 0..dim { for col in 0..dim { j[(row, col)] = res_arr.get([row, col]) } }`: EVERY element is written
+  /\ mach = "jacret" /\ pc = "loop"
+  /\ LET arr == [r \in 1..inp.n |-> [c \in 1..inp.n |-> IF <<r, c>> \in inp.nz THEN Src(r - 1, c - 1) ELSE Zero]]
+     IN out' = [J |-> [r \in 1..inp.n |-> [c \in 1..inp.n |-> arr[r][c]]], via |-> IF inp.form = "dense" THEN "ndarray" ELSE "toarray"]
+  /\ pc' = "done" /\ UNCHANGED <<mach, inp, st>>
+
 \* ---- Jacobian source: solve.rs (what is handed to PythonIVP::new) and ivp_wrapper.rs (PythonIVP::jac, jac_fd) ----
 JSParse ==         \* solve_ivp_py: `sparsity_structure = match jac_sparsity { Some(sp) => Some(from_python(sp)), None => None }`,
                    \*               `is_constant_jac = jac.map_or(false, |j| !j.is_callable())`
@@ -505,6 +571,8 @@ Init ==
      \/ mach = "jac" /\ inp \in JacForms
      \/ mach = "spform" /\ inp \in SpForms
      \/ mach = "jacsrc" /\ inp \in [jac : JSrcJacForms, sp : JSrcSpForms]
+     \/ mach = "solseg" /\ inp \in {x \in [k : 1..MaxM, dir : {-1, 1}, s : -1..(2 * MaxM + 1)] : x.s <= 2 * x.k + 1}
+     \/ mach = "jacret" /\ inp \in [n : {2}, form : {"dense", "sparse"}, nz : SUBSET ((1..2) \X (1..2))]
      \/ mach = "jacread" /\ inp \in [n : 1..3, layout : JacLayouts]
      \/ mach = "group" /\ inp \in BlockInputs
   /\ pc = (IF mach \in {"group", "evlist"} THEN "pick" ELSE "alloc") /\ st = Nothing /\ out = Nothing
@@ -517,6 +585,7 @@ Next ==
   \/ StatusMap \/ ParseMethod \/ ParseTol \/ ParseStep \/ ParseEvAttr \/ ParseJac
   \/ ELPick \/ ELStart \/ ELIter \/ ELDone
   \/ JSParse \/ JSDispatch
+  \/ SGStart \/ SGScan \/ SGExtrapolate \/ JRStart \/ JRToArray \/ JRCopy
   \/ GPick \/ GStart \/ GAssign \/ GNew \/ GFdStart \/ GFdGroup \/ GDone
 
 Spec == Init /\ [][Next]_vars
@@ -537,6 +606,8 @@ Contract ==
       [] mach = "evlist" -> EvListContract(inp.evs, out)
       [] mach = "jac" -> JacContract(inp, out)
       [] mach = "jacsrc" -> JacSourceContract(inp, out)
+      [] mach = "solseg" -> SolSegContract(inp, out)
+      [] mach = "jacret" -> JacReturnContract(inp, out)
       [] mach = "jacread" -> JacReadContract(inp.n, out)
       [] mach = "spform" -> SparsityFormContract(inp, out)
       [] mach = "group" -> GroupsContract(inp.n, inp.rows, out) /\ FDContract(inp.n, inp.rows, out)
@@ -569,6 +640,13 @@ Scenario ==
                                       doc |-> (DocTerm(inp.evs[i].terminal) /\ DocDir(inp.evs[i].direction))]],
                            doc |-> \A i \in 1..Len(inp.evs) : DocTerm(inp.evs[i].terminal) /\ DocDir(inp.evs[i].direction)]
     [] mach = "jac" -> [kind |-> "jac", form |-> inp, source |-> out.source, njev |-> out.njev]
+    [] mach = "solseg" -> [kind |-> "solseg", k |-> inp.k, dir |-> inp.dir, s |-> inp.s, seg |-> out.seg, how |-> out.how,
+                           where |-> IF inp.s < 0 THEN "before" ELSE IF inp.s > 2 * inp.k THEN "after"
+                                     ELSE IF inp.s = 0 THEN "start" ELSE IF inp.s = 2 * inp.k THEN "end"
+                                     ELSE IF inp.s % 2 = 0 THEN "step-end" ELSE "interior",
+                           \* Level B only: does the extrapolating step lie at the near end of the span?  (as coded: not for dir = -1, k >= 2)
+                           nearest |-> (inp.s < 0 => out.seg = 1) /\ (inp.s > 2 * inp.k => out.seg = inp.k)]
+    [] mach = "jacret" -> [kind |-> "jacret", form |-> inp.form, via |-> out.via, stored |-> Cardinality(inp.nz)]
     [] mach = "jacsrc" -> [kind |-> "jacsrc", jac |-> inp.jac, sp |-> inp.sp, source |-> out.source, njev |-> out.njev,
                            pattern_used |-> out.pattern_used]
     [] mach = "spform" -> [kind |-> "spform", form |-> inp.form, via |-> out.via, own |-> inp.own]
@@ -578,6 +656,6 @@ Scenario ==
 Emit == pc = "done" => PrintT(<<"REPLAY", ToJson(Scenario)>>)
 
 TypeOK ==
-  /\ mach \in {"transpose", "evflat", "sol", "status", "method", "tol", "step", "evattr", "evlist", "jac", "jacsrc", "jacread", "spform", "group"}
+  /\ mach \in {"transpose", "evflat", "sol", "status", "method", "tol", "step", "evattr", "evlist", "jac", "jacsrc", "solseg", "jacret", "jacread", "spform", "group"}
   /\ pc \in {"pick", "alloc", "loop", "eval", "tr", "cols", "fd", "done"}
 =============================================================================
